@@ -1,4 +1,5 @@
 import LeptosModel.Model.Transfer
+import LeptosModel.Gen.Transfer
 /-!
 # C12 — data handed from server to client arrives intact and inert
 
@@ -206,7 +207,7 @@ theorem jsStrLit_rustDebugStr (p g : Nat → Bool) (s : Str) (hs : Scalar s)
     (hn : nulOct s = false) (r : Str) :
     jsStrLit (rustDebugStr p g s ++ r) = some (s, r) := by
   have h := jsStrBody_debugBody p g s (fun c hc => (hs c hc).1) hn r
-  simp only [rustDebugStr, List.cons_append, List.append_assoc, List.singleton_append,
+  simp only [rustDebugStr, List.cons_append, List.append_assoc,
     List.nil_append, jsStrLit, if_true, h, joinSurr_scalar s hs]
 
 theorem jsDecode_rustDebugStr (p g : Nat → Bool) (s : Str) (hs : Scalar s)
@@ -730,7 +731,7 @@ theorem cliRun_flag_irrelevant (ops : List IdOp) :
     | create =>
       simp only [cliRun, CliCtr.nextId, h]
       congr 1
-      exact ih _ _ (by simp [h])
+      exact ih _ _ (by simp)
     | setHyd b =>
       simp only [cliRun]
       exact ih _ _ h
@@ -848,7 +849,7 @@ theorem poll_done_buf_empty (p g : Nat → Bool) (s : Srv) (h : s.phase = .strea
   · next hc =>
     simp only [Bool.and_eq_true, List.isEmpty_iff] at hc
     simp [hc.1, hc.2]
-  · split at hd <;> simp [h] at hd
+  · split at hd <;> simp at hd
 
 theorem count_ready_pending (k : Nat) (b : List Entry) :
     ((readyOf b).map (·.key)).count k + ((pendingOf b).map (·.key)).count k
@@ -930,7 +931,7 @@ theorem inv_same_buf (t t' : Trace) (h : Inv t) (hb : t'.srv.buf = t.srv.buf)
   · rw [he]; exact h.ready
 
 theorem count_write (t : Trace) (id : Nat) (v : Str) (k : Nat) :
-    ((t.emitted ++ (t.srv.buf ++ [⟨t.log.length, id, v, false⟩])).map (·.key)).count k
+    ((t.emitted ++ (t.srv.buf ++ [(⟨t.log.length, id, v, false⟩ : Entry)])).map (·.key)).count k
       = ((t.emitted ++ t.srv.buf).map (·.key)).count k + (if t.log.length = k then 1 else 0) := by
   simp only [List.map_append, List.count_append, List.map_cons, List.map_nil, List.count_cons,
     List.count_nil, beq_iff_eq]
@@ -1081,5 +1082,76 @@ example :
     let t := Trace.run asciiPrintable noExtend Trace.init
       [.write 0 [97], .write 1 [98], .start, .poll, .complete 1, .poll, .complete 0, .poll]
     t.emitted.map (·.key) = [1, 0] ∧ t.srv.buf = [] ∧ t.srv.phase = .streaming := by decide
+
+/-! ## E. the model's statement printers are the source's `write!` calls
+
+`Gen/Transfer.lean` is regenerated from hydration_context/src/ssr.rs on every run: every
+`write!` that prints an argument with `{:?}`, with the `.replace` calls applied to that argument.
+The theorems below re-check, against what the source says *now*, (1) that there are exactly the
+four sites of `Site`, (2) which of them replace `<` and by what, (3) that the model's printers
+are those format strings with their holes filled. -/
+
+/-- length of the hole body after a `{`: `}` or `:?}` -/
+def holeLen : Str → Option Nat
+  | [] => none
+  | d :: rest =>
+    if d = 125 then some 1
+    else match rest with
+      | e :: f :: _ => if d = 58 ∧ e = 63 ∧ f = 125 then some 3 else none
+      | _ => none
+
+/-- fill the holes `{}` / `{:?}` of a format string with already-formatted arguments
+(first argument: characters still to skip) -/
+def fillGo : Nat → Str → List Str → Str
+  | _, [], _ => []
+  | k + 1, _ :: rest, args => fillGo k rest args
+  | 0, c :: rest, args =>
+    if c = 123 then
+      match holeLen rest, args with
+      | some n, a :: as => a ++ fillGo n rest as
+      | _, _ => c :: fillGo 0 rest args
+    else c :: fillGo 0 rest args
+
+def fillFmt (fmt : Str) (args : List Str) : Str := fillGo 0 fmt args
+
+/-- (fn, site) in source order -/
+def sourceSites : List (Str × Site) :=
+  [ ([112, 101, 110, 100, 105, 110, 103, 95, 100, 97, 116, 97], .initError),    -- pending_data
+    ([112, 111, 108, 108, 95, 110, 101, 120, 116], .asyncData),                  -- poll_next
+    ([112, 111, 108, 108, 95, 110, 101, 120, 116], .asyncError),                 -- poll_next
+    ([119, 114, 105, 116, 101, 95, 116, 111, 95, 98, 117, 102], .syncData) ]     -- write_to_buf
+
+/-- the format string the model assumes at a site -/
+def siteFormat : Site → Str
+  | .initError => [91, 123, 125, 44, 32, 123, 125, 44, 32, 123, 58, 63, 125, 93, 44]
+  | .asyncData => kResolvedIdx ++ [123, 125] ++ kIdxEq ++ [123, 58, 63, 125, 59]
+  | .asyncError => kErrorsPush ++ [123, 125, 44, 32, 123, 125, 44, 32, 123, 58, 63, 125, 93, 41, 59]
+  | .syncData => [123, 125, 58, 32, 123, 58, 63, 125]
+
+/-- **the four emission sites and their `<` replacement are what the source says** (data sites
+replace `<` by `<`, error sites replace nothing) -/
+theorem C12_sites_match_source :
+    Leptos.Gen.Transfer.debugSites =
+      sourceSites.map fun (fn, site) =>
+        (fn, siteFormat site, if siteReplacesLt site then [(60, kLtEsc)] else []) := by
+  decide
+
+theorem C12_dataStmt_is_format (p g : Nat → Bool) (id : Nat) (v : Str) :
+    dataStmt p g id v = fillFmt (siteFormat .asyncData) [decDigits id, emitLit p g .asyncData v] := by
+  simp [dataStmt, siteFormat, fillFmt, fillGo, holeLen, kResolvedIdx, kIdxEq]
+
+theorem C12_errPushStmt_is_format (p g : Nat → Bool) (b e : Nat) (m : Str) :
+    errPushStmt p g b e m
+      = fillFmt (siteFormat .asyncError) [decDigits b, decDigits e, emitLit p g .asyncError m] := by
+  simp [errPushStmt, errTupleBody, siteFormat, fillFmt, fillGo, holeLen, kErrorsPush]
+
+theorem C12_errTuple_is_format (p g : Nat → Bool) (b e : Nat) (m : Str) :
+    errTuple p g .initError b e m ++ [44]
+      = fillFmt (siteFormat .initError) [decDigits b, decDigits e, emitLit p g .initError m] := by
+  simp [errTuple, errTupleBody, siteFormat, fillFmt, fillGo, holeLen]
+
+theorem C12_syncEntry_is_format (p g : Nat → Bool) (id : Nat) (v : Str) :
+    syncEntry p g id v = fillFmt (siteFormat .syncData) [decDigits id, emitLit p g .syncData v] := by
+  simp [syncEntry, siteFormat, fillFmt, fillGo, holeLen]
 
 end Leptos.Transfer
